@@ -94,6 +94,25 @@ EXTRA = {
  "C20": " Also: headers are relayed by appending through a full-range, non-aliasing copy; the limiter's bookkeeping call cannot fail for any configured rate.",
 }
 
+EXTRA3 = {
+ "C01": " Also: the refusing (all-zero) exit of the selection leaves the iterator reset; the rebalancer does not restart the rotation without changing a weight.",
+ "C02": " Also: a failed add through the rebalancer is undone in the wrapped balancer; identity functions compare URL fields exactly.",
+ "C04": " Also: the per-source entry is dropped only at count zero; the built-in extractors name the source exactly.",
+ "C06": " Also: the verbose request dump only reads the request.",
+ "C07": " Also: per-attempt header map; only Write feeds the response buffer; an attempt is delivered only when the retry expression is false (or absent / bound exhausted).",
+ "C08": " Also: port 80 only for a non-TLS connection.",
+ "C09": " Also: get-or-create insertions are atomic with their look-up; locks held across user code are released by defer; the module's own implementations of its extension interfaces and the TTL map are analysed as roots.",
+ "C10": " Also: adjustment loops visit every record; weights are applied only after, and always after, a change.",
+ "C11": " Also: the candidate list is the whole pool; two-way codecs encode raw.String(); the issued cookie is computed by the codec in the same call.",
+ "C14": " Also: the expiry heap is re-ordered after every priority change; limiter locks held across user code are released by defer.",
+ "C15": " Also: only Write feeds the response buffer; WriterOnce.Close only in the release routine.",
+ "C16": " Also: an unparsable RequestURI falls back to req.URL.",
+ "C17": " Also: the clean-up sweep is never skipped; the constructor stores the requested resolution unchanged.",
+ "C20": " Also: the verbose request dump is read-only; no middleware re-acquires a lock it holds.",
+}
+for _k, _v in EXTRA3.items():
+    EXTRA[_k] = EXTRA.get(_k, "") + _v
+
 NA = {}
 
 def main():
